@@ -79,19 +79,28 @@ def _slice_len(sli):
     return sli.stop - sli.start + 1
 
 
-def augment_slice(s, phase):
-    """Augment a slice to include the closest trough to the left."""
-    xx = np.where(np.flipud(phase[:s.start]) < 1.5*np.pi)[0]
-    if len(xx) == 0:
+def augment_slice(s, phase, prev=None):
+    """Augment a slice to start at the trough of the previous cycle.
+
+    This is the slice equivalent of map_cycle_to_samples_augmented: the trough
+    is the first sample of the previous cycle (the slice prev) whose phase is
+    above 1.5pi. None is returned if there is no previous cycle or no such
+    sample.
+    """
+    if prev is None:
         return None
-    start_diff = xx[0]
-    s2 = slice(s.start - start_diff, s.stop)
+    xx = np.where(phase[prev] > 1.5*np.pi)[0]
+    if len(xx) == 0:
+        # No candidate trough in previous cycle
+        return None
+    s2 = slice(prev.start + xx[0], s.stop)
     return s2
 
 
 def make_aug_slice_cache(slice_cache, phase, func=augment_slice):
     """Build a slice cache of augmented slices defined by some function."""
-    return [func(s, phase) for s in slice_cache]
+    prevs = [None] + list(slice_cache[:-1])
+    return [func(s, phase, prev) for s, prev in zip(slice_cache, prevs)]
 
 
 # --------------------------------------
@@ -131,7 +140,10 @@ def get_augmented_cycle_stat_from_samples(vals, cycle_vect, phase, func=np.mean)
 
     for ii in range(ncycles):
         inds = map_cycle_to_samples_augmented(cycle_vect, ii, phase)
-        if isinstance(vals, tuple):
+        if inds is None:
+            # This cycle can't be augmented
+            out[ii] = np.nan
+        elif isinstance(vals, tuple):
             args = [v[inds] for v in vals]
             out[ii] = func(*args)
         else:
